@@ -169,6 +169,16 @@ def pipe_shapes(tier):
     S.append(mk('global-relative-origin-default-global', [
         ('org', V('k'), 'GLOBAL'), ('label', 'a'), ('data', '.byte', [C(7)]), ('memzone', 'GLOBAL'), ('data', '.2byte', [L('a')])],
         {'k': (0, 0x50)}, expect=('ok',)))
+    # f3: a zone directive in an unselected conditional branch must not switch the zone
+    S.append(mk('zone-directive-in-unselected-branch', [
+        ('memzone', 'Z'), ('data', '.byte', [C(1)]), ('if', 0, [('memzone', 'Y')], [('data', '.byte', [C(2)])]), ('label', 'a'),
+        ('data', '.2byte', [L('a')]), ('if', 1, [('instr', 'nop', None)], [('org', C(0), None)]), ('label', 'b'),
+        ('data', '.2byte', [L('b')]), ('if', ('def', 'USE_Y'), [('memzone', 'Y')], [('memzone', 'Z')]), ('fill', V('n'), C(3)), ('label', 'c')],
+        N, zones={'Z': (ZS, ZE), 'Y': (0x100, 0x10f)}))
+    S.append(mk('zone-directive-in-selected-branch', [
+        ('memzone', 'Z'), ('data', '.byte', [C(1)]), ('if', 1, [('memzone', 'Y')], [('memzone', 'Z')]), ('label', 'a'),
+        ('data', '.2byte', [L('a')]), ('if', ('ndef', 'NOPE'), [('org', C(4), 'Z')], None), ('label', 'b'), ('data', '.2byte', [L('b')])],
+        {}, zones={'Z': (ZS, ZE), 'Y': (0x100, 0x10f)}))
     # g: predefined zone and a redefined GLOBAL
     S.append(mk('predefined-zone-vs-global', [('memzone', 'Z'), ('data', '.byte', [C(1), C(2)])], {},
                 global_zone=(0x10, 0x3f), zones={'Z': (Sym('zs', 0, 0x50), Sym('ze', 0, 0x60))}, origin=0x10))
